@@ -90,10 +90,15 @@ fn gen_tree(g: &mut SplitMix) -> FsTree {
             let id = if dir.is_empty() { name.to_string() } else { format!("{dir}.{name}") };
             for e in ["txt", "x", "", "ron", "tar"] {
                 if g.chance(1, 3) {
-                    let data: Vec<u8> = match g.below(5) {
+                    let data: Vec<u8> = match g.below(6) {
                         0 => vec![],
                         1 => (0..g.below(300)).map(|_| g.below(256) as u8).collect(),
                         2 => vec![b'z'; 600 + g.below(3000) as usize],
+                        // block and record boundaries of the archive formats (tar: 512-byte blocks, 10 KiB records; zip: 16-bit sizes)
+                        3 if g.chance(1, 3) => {
+                            let n = if g.chance(1, 6) { *g.pick(&[10239usize, 10240, 10241, 65535, 65536, 65537]) } else { *g.pick(&[511usize, 512, 513, 1023, 1024, 1025]) };
+                            (0..n).map(|i| (i % 251) as u8).collect()
+                        }
                         _ => format!("{id}.{e}").into_bytes(),
                     };
                     // a file without extension and a directory cannot share a name on a file system
